@@ -480,7 +480,7 @@ func rangesAndCancels(fn *ssa.Function, fld *types.Var) bool {
 				if c == nil {
 					return
 				}
-				isCancel := (c.IsInvoke() && c.Method.Name() == "Cancel" && c.Value == val) ||
+				isCancel := (c.IsInvoke() && c.Method.Name() == "Cancel" && (c.Value == val || dependsOn(c.Value, func(v ssa.Value) bool { return v == val }))) ||
 					(!c.IsInvoke() && staticCallee(c) != nil && staticCallee(c).Name() == "Cancel" && len(c.Args) > 0 && dependsOn(c.Args[0], func(v ssa.Value) bool { return v == val }))
 				if !isCancel {
 					return
